@@ -139,23 +139,60 @@ static void body(Ctx& C)
    Family<Qualifiers, Basic_qualifier, 3> Q("qualifiers", lex, basic_qualifier_words);
    bool ok = S.init() & Q.init();
    // named accessors equal the mapping of their own name
-   struct Acc { const char8_t* name; Specifiers v; };
-   Acc accs[] = {
-      {u8"export", L.export_specifier()}, {u8"static", L.static_specifier()}, {u8"extern", L.extern_specifier()},
-      {u8"mutable", L.mutable_specifier()}, {u8"thread_local", L.thread_local_specifier()}, {u8"register", L.register_specifier()},
-      {u8"inline", L.inline_specifier()}, {u8"constexpr", L.constexpr_specifier()}, {u8"consteval", L.consteval_specifier()},
-      {u8"virtual", L.virtual_specifier()}, {u8"=0", L.abstract_specifier()}, {u8"explicit", L.explicit_specifier()},
-      {u8"friend", L.friend_specifier()}, {u8"typedef", L.typedef_specifier()}, {u8"public", L.public_specifier()},
-      {u8"protected", L.protected_specifier()}, {u8"private", L.private_specifier()} };
-   for (auto& a : accs) {
-      C.count("named_accessors_checked");
-      if (a.v != S.of_name(a.name)) C.viol("specifiers:accessor-mismatch", "named accessor differs from specifiers(its own name): " + narrow(a.name));
-   }
-   struct QAcc { const char8_t* name; Qualifiers v; };
-   QAcc qaccs[] = { {u8"const", L.const_qualifier()}, {u8"volatile", L.volatile_qualifier()}, {u8"restrict", L.restrict_qualifier()} };
-   for (auto& a : qaccs) {
-      C.count("named_accessors_checked");
-      if (a.v != Q.of_name(a.name)) C.viol("qualifiers:accessor-mismatch", "named accessor differs from qualifiers(its own name): " + narrow(a.name));
+   auto accessors = [&C](const Lexicon& L, auto& S, auto& Q, const std::string& when) {
+      struct Acc { const char8_t* name; Specifiers v; };
+      Acc accs[] = {
+         {u8"export", L.export_specifier()}, {u8"static", L.static_specifier()}, {u8"extern", L.extern_specifier()},
+         {u8"mutable", L.mutable_specifier()}, {u8"thread_local", L.thread_local_specifier()}, {u8"register", L.register_specifier()},
+         {u8"inline", L.inline_specifier()}, {u8"constexpr", L.constexpr_specifier()}, {u8"consteval", L.consteval_specifier()},
+         {u8"virtual", L.virtual_specifier()}, {u8"=0", L.abstract_specifier()}, {u8"explicit", L.explicit_specifier()},
+         {u8"friend", L.friend_specifier()}, {u8"typedef", L.typedef_specifier()}, {u8"public", L.public_specifier()},
+         {u8"protected", L.protected_specifier()}, {u8"private", L.private_specifier()} };
+      for (auto& a : accs) {
+         C.count("named_accessors_checked");
+         try { if (a.v != S.of_name(a.name)) C.viol("specifiers:accessor-mismatch" + when, "named accessor differs from specifiers(its own name): " + narrow(a.name)); }
+         catch (...) { C.viol("specifiers:basic-name-refused" + when, "the name of a named accessor is refused: " + narrow(a.name)); }
+      }
+      struct QAcc { const char8_t* name; Qualifiers v; };
+      QAcc qaccs[] = { {u8"const", L.const_qualifier()}, {u8"volatile", L.volatile_qualifier()}, {u8"restrict", L.restrict_qualifier()} };
+      for (auto& a : qaccs) {
+         C.count("named_accessors_checked");
+         try { if (a.v != Q.of_name(a.name)) C.viol("qualifiers:accessor-mismatch" + when, "named accessor differs from qualifiers(its own name): " + narrow(a.name)); }
+         catch (...) { C.viol("qualifiers:basic-name-refused" + when, "the name of a named accessor is refused: " + narrow(a.name)); }
+      }
+   };
+   accessors(L, S, Q, "");
+   // The same questions once every other word-keyed factory of the Lexicon has been asked for the basic names (a calling
+   // convention, a linkage, an identifier, an operator, a suffix or a label spelled like a specifier or qualifier), in a
+   // Lexicon that mapped the names before (ours) and in one that is asked only afterwards: the mapping goes by the spelling,
+   // whatever else that spelling designates in the Lexicon.
+   auto other_factories_first = [&](impl::Lexicon& X, const char* when) {
+      for (int round = 0; round < 2; ++round) {
+         auto plant = [&](std::u8string_view w) {
+            C.count("basic_names_asked_of_the_other_word_factories");
+            (void)X.get_calling_convention(w); (void)X.get_linkage(w); (void)X.get_linkage(X.get_string(w));
+            auto& id = X.get_identifier(w); (void)X.get_identifier(X.get_string(w)); (void)X.get_operator(w); (void)X.get_operator(X.get_string(w));
+            (void)X.get_suffix(id); (void)X.get_label(id);
+         };
+         for (auto w : basic_specifier_words) plant(w);
+         for (auto w : basic_qualifier_words) plant(w);
+         Family<Specifiers, Basic_specifier, 18> S2("specifiers", X, basic_specifier_words);
+         Family<Qualifiers, Basic_qualifier, 3> Q2("qualifiers", X, basic_qualifier_words);
+         const bool ok2 = S2.init() & Q2.init();
+         accessors(X, S2, Q2, when);
+         if (ok && ok2) {
+            for (int i = 0; i < 18; ++i) if (S2.single[i] != S.single[i]) C.viol(std::string("specifiers:mapping-changed") + when, "a basic specifier name maps to another set " + std::string(when + 1) + ": " + narrow(basic_specifier_words[i]));
+            for (int i = 0; i < 3; ++i) if (Q2.single[i] != Q.single[i]) C.viol(std::string("qualifiers:mapping-changed") + when, "a basic qualifier name maps to another set " + std::string(when + 1) + ": " + narrow(basic_qualifier_words[i]));
+         }
+         for (auto w : basic_specifier_words) Q2.refused(w, "basic-specifier-name");
+         for (auto w : basic_qualifier_words) S2.refused(w, "basic-qualifier-name");
+      }
+   };
+   if (C.worker == 0) {
+      impl::Lexicon fresh;
+      other_factories_first(fresh, ":after the other word factories were asked for the basic names first");
+      other_factories_first(lex, ":after the other word factories were asked for the basic names");
+      C.need("basic_names_asked_of_the_other_word_factories");
    }
    // unknown names are refused
    if (C.worker == 0) {
